@@ -20,10 +20,17 @@ def r2_invalid_headers(chk: Check) -> None:
     P = chk.project
     fn = P.func(f"{BUILDER}:add_examples")
     g = cfg_of(fn)
-    loops = [n for n in walk_body(fn.node) if isinstance(n, ast.For) and dotted(n.iter) == "result"]
+    # the loop around hypothesis.example(case=<loop variable>)
+    loops = [n for n in walk_body(fn.node) if isinstance(n, ast.For) and isinstance(n.target, ast.Name)
+             and any(unparse(c.func) == "hypothesis.example" and is_var(kwarg(c, "case"), n.target.id) for s_ in n.body for c in calls(s_))]
     if not loops:
+        regs0 = [c for c in body_calls(fn) if unparse(c.func) == "hypothesis.example"]
+        if not regs0:
+            chk.violation("C17.R2", fn, "examples are registered with hypothesis.example", "generated examples are never attached to the test", fn.loc())
+            return
         raise Undecided("loop over the generated examples not found")
     lp = loops[0]
+    ex_var = lp.target.id  # type: ignore[attr-defined]
     conts = [s for s in iter_stmts(lp.body) if isinstance(s, ast.Continue)]
     sets = [n for c in body_calls(fn) if unparse(c.func) == "InvalidHeadersExampleMark.set" for n in g.stmt_nodes_containing(c)]
     head = [n.id for n in g.live() if n.kind == "for" and n.ast is lp]
@@ -39,9 +46,11 @@ def r2_invalid_headers(chk: Check) -> None:
     else:
         chk.violation("C17.R2", fn, "every example is registered or recorded as invalid", "an example can be skipped without being registered and without leaving a mark: it is silently never sent", fn.loc(lp), g.describe_path(w, fn.module.relpath))
     reg = [c for c in body_calls(fn) if unparse(c.func) == "hypothesis.example"]
-    chk.decide(unparse(kwarg(reg[0], "case")) == "example", "C17.R2", fn, "hypothesis.example(case=example)", f"registered value is `{unparse(kwarg(reg[0], 'case'))}`", fn.loc(reg[0]))
+    chk.decide(is_var(kwarg(reg[0], "case"), ex_var), "C17.R2", fn, "hypothesis.example(case=example)", f"registered value is `{unparse(kwarg(reg[0], 'case'))}`", fn.loc(reg[0]))
     rets = simple_return_expr(fn)
-    chk.decide(any(isinstance(r, ast.Name) and r.id == "test" for r in rets), "C17.R2", fn, "the test carrying the examples is returned", "the decorated test is discarded", fn.loc())
+    st_ = stmt_of(reg[0])
+    decorated = {t.id for t in st_.targets if isinstance(t, ast.Name)} if isinstance(st_, ast.Assign) else set()
+    chk.decide(any(isinstance(r, ast.Name) and r.id in decorated for r in rets), "C17.R2", fn, "the test carrying the examples is returned", "the decorated test is discarded", fn.loc())
 
 
 def r3_sibling_sources(chk: Check) -> None:
@@ -62,27 +71,25 @@ def r3_sibling_sources(chk: Check) -> None:
             chk.violation("C17.R3", fn, f"{kind} loop", f"top-level examples of {kind}s are no longer extracted", fn.loc())
             continue
         t = unparse(lp, 100000)
-        var = "parameter" if kind == "parameter" else "alternative"
-        sources = {
-            "example field (and its x- form)": f"{var}.example_field" in t and "'example'" in t,
-            "examples field": f"{var}.examples_field in {var}.definition" in t,
-            "schema-level examples": f"{var}.examples_field in schema" in t,
-            "expanded sub-schemas (anyOf/oneOf/allOf)": "_expand_subschemas(" in t,
-        }
+        var = lp.target.id if isinstance(lp.target, ast.Name) else "?"
+
+        def _sources(loop_: ast.For, v_: str) -> dict[str, bool]:
+            return {
+                "example field (and its x- form)": phas(f"{v_}.example_field", loop_) and "'example'" in unparse(loop_, 100000),
+                "examples field": phas(f"{v_}.examples_field in {v_}.definition", loop_),
+                "schema-level examples": any(name_of(b_, "s") != v_ for _n, b_ in pfind(f"{v_}.examples_field in $s", loop_)),
+                "expanded sub-schemas (anyOf/oneOf/allOf)": "_expand_subschemas(" in unparse(loop_, 100000),
+            }
+
+        sources = _sources(lp, var)
         for what, ok in sources.items():
             if ok:
                 chk.ok("C17.R3", fn, f"{kind} loop consults {what}", "", fn.loc(lp))
             else:
                 other = "body" if kind == "parameter" else "parameter"
                 olp = by_kind.get(other)
-                ot = unparse(olp, 100000) if olp is not None else ""
-                ovar = "alternative" if kind == "parameter" else "parameter"
-                other_has = {
-                    "example field (and its x- form)": f"{ovar}.example_field" in ot,
-                    "examples field": f"{ovar}.examples_field in {ovar}.definition" in ot,
-                    "schema-level examples": f"{ovar}.examples_field in schema" in ot,
-                    "expanded sub-schemas (anyOf/oneOf/allOf)": "_expand_subschemas(" in ot,
-                }[what]
+                ovar = olp.target.id if olp is not None and isinstance(olp.target, ast.Name) else "?"
+                other_has = _sources(olp, ovar)[what] if olp is not None else False
                 if other_has:
                     chk.violation("C17.R3", fn, f"{kind} loop consults {what}", f"the {other} loop reads this source but the {kind} loop does not: such examples of {kind}s are never sent", fn.loc(lp))
                 else:
@@ -91,8 +98,8 @@ def r3_sibling_sources(chk: Check) -> None:
         want = "ParameterExample" if kind == "parameter" else "BodyExample"
         chk.decide(bool(yields) and all(isinstance(y.value, ast.Call) and last_attr(y.value) == want for y in yields), "C17.R3", fn, f"{kind} loop yields {want}", "examples are yielded with the wrong kind", fn.loc(lp))
     g = P.func(f"{EX}:get_strategies_from_examples")
-    t = unparse(g.node, 100000)
-    chk.expect("examples = list(extract_top_level(operation))" in t and "examples.extend(extract_from_schemas(operation))" in t, "C17.R3", g, "both extractors feed the example list", "an extractor is no longer consulted", g.loc())
+    exl = pfind("$e = list(extract_top_level(operation))", g.node)
+    chk.expect(bool(exl) and phas("$e.extend(extract_from_schemas(operation))", g.node, env={"e": exl[0][1]["e"]}), "C17.R3", g, "both extractors feed the example list", "an extractor is no longer consulted", g.loc())
 
 
 def r4_explicit_containers(chk: Check) -> None:
@@ -105,14 +112,18 @@ def r4_explicit_containers(chk: Check) -> None:
         return
     c = oc[0]
     star = [k.value for k in c.keywords if k.arg is None]
-    spread = star and isinstance(star[0], ast.Dict) and any(k is None and unparse(v) == "parameters" for k, v in zip(star[0].keys, star[0].values))
+    comp0 = next((n for n in walk_body(g.node) if isinstance(n, ast.ListComp) and any(c is x for x in ast.walk(n))), None)
+    cvar = comp0.generators[0].target.id if comp0 is not None and isinstance(comp0.generators[0].target, ast.Name) else None
+    spread = star and isinstance(star[0], ast.Dict) and any(k is None and is_var(v, cvar) for k, v in zip(star[0].keys, star[0].values))
     chk.decide(True if spread else None, "C17.R4", g, "the combination is spread into explicit containers", "combination is not passed as explicit containers", g.loc(c))
     phase = star and isinstance(star[0], ast.Dict) and any(k is not None and const_str(k) == "phase" and dotted(v) == "TestPhase.EXPLICIT" for k, v in zip(star[0].keys, star[0].values))
     chk.decide(True if phase else None, "C17.R4", g, "phase = TestPhase.EXPLICIT", "examples are not marked as explicit-phase cases", g.loc(c))
     comp = next((n for n in walk_body(g.node) if isinstance(n, ast.ListComp)), None)
-    chk.decide(comp is not None and "produce_combinations(examples)" in unparse(comp.generators[0].iter), "C17.R4", g, "one strategy per produced combination", "combinations do not come from produce_combinations(examples)", g.loc())
+    exn = name_of(exl[0][1], "e") if (exl := pfind("$e = list(extract_top_level(operation))", g.node)) else None
+    chk.decide(comp is not None and exn is not None and pmatch(f"produce_combinations({exn})", comp.generators[0].iter) is not None, "C17.R4", g, "one strategy per produced combination", "combinations do not come from produce_combinations(examples)", g.loc())
     maps = [x for x in ast.walk(comp) if isinstance(x, ast.Call) and last_attr(x) in ("map", "filter", "flatmap")] if comp is not None else []
-    ok = [m for m in maps if last_attr(m) == "map" and m.args and unparse(m.args[0]) == "serialize_components"]
+    nested_defs = {q.rsplit(".", 1)[1] for q in g.module.functions if q.startswith(g.name + ".")}
+    ok = [m for m in maps if last_attr(m) == "map" and m.args and unparse(m.args[0]) in nested_defs and "serializ" in unparse(m.args[0])]
     extra = [m for m in maps if m not in ok]
     if extra:
         chk.violation("C17.R4", g, "examples are only mapped by the location serializer", f"examples are additionally transformed by `{unparse(extra[0].args[0] if extra[0].args else extra[0], 40)}`: they are not sent verbatim", g.loc(extra[0]))
@@ -120,8 +131,8 @@ def r4_explicit_containers(chk: Check) -> None:
         chk.decide(bool(ok), "C17.R4", g, "examples are only mapped by the location serializer", "serializer mapping not found", g.loc())
     # explicit values are kept by openapi_cases: generate_parameter -> get_parameters_value returns `value` / a copy updated with generated *missing* names
     gpv = P.func("specs/openapi/_hypothesis.py:get_parameters_value")
-    t = unparse(gpv.node, 100000)
-    chk.expect("copied = deepclone(value)" in t and "copied.update(new)" in t and "exclude=value.keys()" in t, "C17.R4", gpv, "explicit values are kept and only missing names are generated", "merge shape not recognised", gpv.loc())
+    cp_ = pfind("$c = deepclone(value)", gpv.node)
+    chk.expect(bool(cp_) and phas("$c.update($n)", gpv.node, env={"c": cp_[0][1]["c"]}) and phas("get_parameters_strategy(..., exclude=value.keys())", gpv.node), "C17.R4", gpv, "explicit values are kept and only missing names are generated", "merge shape not recognised", gpv.loc())
 
 
 def _len_symmetry(fn: FuncInfo, loop: ast.For, a: str, b: str) -> bool | None:
@@ -159,10 +170,20 @@ def r5_round_robin(chk: Check) -> None:
         if lp is None:
             chk.undecided("C17.R5", fn, "loop around the merged yield", "not in a loop", fn.loc(y))
             continue
-        sym = _len_symmetry(fn, lp, "parameter_combos", "body_combos")
+        # the two sides: the sequences the merged dict draws from (`**next(islice(cycle(<side>), idx, None))` / `**<side>[i]` / loop targets)
+        sides = []
+        for k_, v_ in zip(y.value.keys, y.value.values):  # type: ignore[union-attr]
+            if k_ is None:
+                names_ = [x.id for x in ast.walk(v_) if isinstance(x, ast.Name) and x.id not in ("next", "islice", "cycle", "None") and x.id not in names_in(lp.target)]
+                # a side that is the loop variable itself stands for the sequence the loop iterates
+                sides.append(names_[0] if names_ else (unparse(lp.iter, 60) if names_in(v_) & names_in(lp.target) else unparse(v_, 40)))
+        if len(sides) < 2:
+            chk.undecided("C17.R5", fn, "loop around the merged yield", "the two merged sides are not recognised", fn.loc(y))
+            continue
+        sym = _len_symmetry(fn, lp, sides[0], sides[1])
         if sym is None:
-            sym = _len_symmetry(fn, lp, "body_combos", "parameter_combos")
-        construct = f"for {unparse(lp.target)} in {unparse(lp.iter, 60)}"
+            sym = _len_symmetry(fn, lp, sides[1], sides[0])
+        construct = "merge loop runs max(len(bodies), len(parameter combinations)) times"
         if sym is True:
             chk.ok("C17.R5", fn, construct, "iterates over the longer side", fn.loc(lp))
         elif sym is False:
@@ -174,16 +195,17 @@ def r5_round_robin(chk: Check) -> None:
     # every example lands in a bucket
     first = next((n for n in walk_body(fn.node) if isinstance(n, ast.For) and dotted(n.iter) == "examples"), None)
     if first is not None:
-        t = unparse(first, 100000)
-        chk.expect("parameter_examples.append(example.value)" in t and "values.append(example.value)" in t and isinstance(first.body[0], ast.If) and bool(first.body[0].orelse), "C17.R5", fn, "every example is put into the parameter or the body bucket", "bucket shape not recognised", fn.loc(first))
+        ev = first.target.id if isinstance(first.target, ast.Name) else "example"
+        top_if = first.body[0] if first.body and isinstance(first.body[0], ast.If) else None
+        chk.expect(top_if is not None and bool(top_if.orelse) and phas(f"$l.append({ev}.value)", top_if.body) and phas(f"$l.append({ev}.value)", top_if.orelse), "C17.R5", fn, "every example is put into the parameter or the body bucket", "bucket shape not recognised", fn.loc(first))
     # bodies-only and parameters-only branches yield everything
-    t = unparse(fn.node, 100000)
-    chk.expect("yield from _produce_parameter_combinations(parameters)" in t, "C17.R5", fn, "parameters-only: all combinations", "branch not recognised", fn.loc())
+    chk.expect(phas("yield from _produce_parameter_combinations($p)", fn.node), "C17.R5", fn, "parameters-only: all combinations", "branch not recognised", fn.loc())
     pc = P.func(f"{EX}:_produce_parameter_combinations")
-    tc = [v for _, v in assignments_to(pc.node, "total_combos") if v is not None]
+    rng = [n for n in walk_body(pc.node) if isinstance(n, ast.For) and (m_ := pmatch("range($n)", n.iter)) is not None]
+    tc = [v for n in rng for m_ in [pmatch("range($n)", n.iter)] if m_ and isinstance(m_["n"], ast.Name) for _, v in assignments_to(pc.node, m_["n"].id) if v is not None]
     if tc:
         v = unparse(tc[0], 400)
-        if v.startswith("max(") and "len(variants)" in v:
+        if v.startswith("max(") and phas("len($v)", tc[0]):
             chk.ok("C17.R5", pc, "combinations = max number of examples over all parameters", "", pc.loc())
         elif v.startswith("min("):
             chk.violation("C17.R5", pc, "combinations = max number of examples over all parameters", "only as many combinations as the parameter with the FEWEST examples: the other parameters' extra examples are never sent", pc.loc())
@@ -191,8 +213,7 @@ def r5_round_robin(chk: Check) -> None:
             chk.undecided("C17.R5", pc, "combinations = max number of examples over all parameters", f"count is `{v[:80]}`", pc.loc())
     else:
         chk.undecided("C17.R5", pc, "combinations = max number of examples over all parameters", "total_combos not found", pc.loc())
-    inner = unparse(pc.node, 100000)
-    chk.expect("next(islice(cycle(parameter_variants), idx, None))" in inner, "C17.R5", pc, "idx-th variant of every parameter (cycled)", "selection shape not recognised", pc.loc())
+    chk.expect(phas("next(islice(cycle($v), $i, None))", pc.node), "C17.R5", pc, "idx-th variant of every parameter (cycled)", "selection shape not recognised", pc.loc())
 
 
 def rules(tier: str) -> list:  # type: ignore[type-arg]
